@@ -403,9 +403,9 @@ impl Check for C14 {
     fn generate(r: &mut Rng, tier: Tier) -> Case {
         if r.chance(1, 2) {
             let mut c = gen::draw_cfg(r, tier);
-            c.max_extra_nodes = c.max_extra_nodes.min(if c.large { 6 } else { 3 });
-            c.max_edges = c.max_edges.min(if c.large { 4 } else { 2 });
-            c.max_iface = c.max_iface.min(if c.large { 4 } else { 3 });
+            c.max_extra_nodes = c.max_extra_nodes.min(if c.huge { 70 } else if c.large { 6 } else { 3 });
+            c.max_edges = c.max_edges.min(if c.huge { 40 } else if c.large { 4 } else { 2 });
+            c.max_iface = c.max_iface.min(if c.huge { 40 } else if c.large { 4 } else { 3 });
             c.max_arity = c.max_arity.min(2);
             let (f, g) = gen::gen_pair(r, &c);
             Case::Typing(TypingCase { f, g, spec: gen_ospec(r, c.node_labels), schedules: r.range(1, 2) })
@@ -423,6 +423,8 @@ impl Check for C14 {
             Case::Typing(t) => {
                 ex.workload_fp = mix(mix(t.f.fingerprint(), t.g.fingerprint()), crate::rng::hash_str(&format!("{:?}", t.spec)));
                 ex.nontrivial = t.f.m() > 0 || t.f.n() > 0;
+                ex.probe_if(t.f.n() >= 64 || t.f.m() >= 64 || t.f.s.len() >= 64 || t.f.t.len() >= 64, "size_64_or_more");
+                ex.probe_if(t.f.n() >= 256 || t.f.m() >= 256 || t.f.s.len() >= 256 || t.f.t.len() >= 256, "size_256_or_more");
                 ex.probe_if(t.f.e.iter().any(|e| t.spec.m(e.l).is_empty()), "residual_empty");
                 ex.probe_if(t.f.e.iter().any(|e| t.spec.m(e.l).len() == 1), "residual_single");
                 ex.probe_if(t.f.e.iter().any(|e| t.spec.m(e.l).len() >= 2), "residual_multiple");
